@@ -354,6 +354,10 @@ pub struct WtCase {
     pub big_first: bool,
     pub followups: u8,
     pub big_len_sel: u8,
+    /// other threads that start a small send while the big write is in progress (they
+    /// queue on the client's writer and race the connection teardown when it times out)
+    #[serde(default)]
+    pub queued: u8,
 }
 
 pub fn check_write_timeout(c: &WtCase) -> CheckResult {
@@ -393,7 +397,29 @@ pub fn check_write_timeout(c: &WtCase) -> CheckResult {
         drain_std(&mut s, &mut all, Duration::from_secs(20));
         all
     });
-    let mut any_err = false;
+    // callers queued behind the big write
+    let mut queued_threads = Vec::new();
+    for q in 0..c.queued {
+        let m = Issued {
+            path: format!("/queued/{q}"),
+            body_len: 200 + q as usize,
+            fill: 0x60 + q,
+            body_format: 0,
+            notify: 1,
+            query_format: 1,
+            ec: 0,
+        };
+        issued.push(m.clone());
+        let cl = client.clone();
+        let delay = Duration::from_millis((c.timeout_ms as u64 / 3).max(2) + q as u64);
+        let big_first = c.big_first;
+        queued_threads.push(std::thread::spawn(move || {
+            // start while the big write holds the writer
+            std::thread::sleep(delay + if big_first { Duration::ZERO } else { Duration::from_millis(2) });
+            let _ = cl.notify_with_formats(&m.path, 1, Some(&vec![m.fill; m.body_len]), 0);
+        }));
+    }
+    let mut any_err = c.queued > 0; // (queued sends are not tracked individually: no completeness claim)
     for (p, l, f) in &msgs {
         let r = client.notify_with_formats(p, 1, Some(&vec![*f; *l]), 0);
         if r.is_err() {
@@ -403,6 +429,9 @@ pub fn check_write_timeout(c: &WtCase) -> CheckResult {
             // let the peer start draining before the follow-ups, so they would reach the wire
             std::thread::sleep(stall.saturating_sub(Duration::from_millis(c.timeout_ms as u64)) + Duration::from_millis(30));
         }
+    }
+    for t in queued_threads {
+        let _ = t.join();
     }
     drop(client);
     let captured = peer.join().map_err(|_| Fail::new("panic", "peer panicked"))?;
@@ -422,13 +451,14 @@ pub fn check_write_timeout(c: &WtCase) -> CheckResult {
 }
 
 fn wt_case() -> BoxedStrategy<WtCase> {
-    (15u16..80, prop_oneof![3 => 20i16..200, 1 => -15i16..20], any::<bool>(), 1u8..4, 0u8..4)
-        .prop_map(|(timeout_ms, stall_delta_ms, big_first, followups, big_len_sel)| WtCase {
+    (15u16..80, prop_oneof![3 => 20i16..200, 1 => -15i16..20], any::<bool>(), 1u8..4, 0u8..4, prop_oneof![1 => Just(0u8), 2 => 1u8..4])
+        .prop_map(|(timeout_ms, stall_delta_ms, big_first, followups, big_len_sel, queued)| WtCase {
             timeout_ms,
             stall_delta_ms,
             big_first,
             followups,
             big_len_sel,
+            queued,
         })
         .boxed()
 }
@@ -560,6 +590,104 @@ pub fn check_abandoned(c: &AbCase) -> CheckResult {
         .class(if c.ws { "WebSocketClient" } else { "AsyncClient" })
         .class(if c.abort { "abort" } else { "tokio-timeout" })
         .class(if st.prefix_len > 0 { "peer-holds-prefix" } else { "stream-ends-on-boundary" }))
+}
+
+// ------------------------------------- small requests abandoned on a full socket
+
+/// AsyncClient against a peer that does not read: small notifies (each below the
+/// client's write buffer size) are sent until one cannot be flushed any more and is
+/// abandoned by its caller; `more` further small requests are started and abandoned
+/// the same way; then the peer drains and `followups` more requests are sent.
+#[derive(Debug, Clone, Serialize, Deserialize, Hash, PartialEq, Eq)]
+pub struct SmallAbCase {
+    pub fill_len: u16,
+    pub abandon_ms: u8,
+    /// sizes of the further requests abandoned while the peer is still stalled
+    pub more: Vec<u16>,
+    pub followups: u8,
+}
+
+pub fn check_abandoned_small(c: &SmallAbCase) -> CheckResult {
+    let abandon = Duration::from_millis(30 + c.abandon_ms as u64);
+    let (captured, issued, stalled): (Vec<u8>, Vec<Issued>, bool) = block_on(async {
+        let (std_l, addr) = small_rcvbuf_listener().map_err(|e| Fail::new("harness-listen", e.to_string()))?;
+        std_l.set_nonblocking(true).ok();
+        let listener = tokio::net::TcpListener::from_std(std_l).map_err(|e| Fail::new("harness-listen", e.to_string()))?;
+        let client = AsyncClient::connect(addr).await.map_err(|e| Fail::new("harness-connect", e.to_string()))?;
+        let (mut s, _) = listener.accept().await.map_err(|e| Fail::new("harness-accept", e.to_string()))?;
+        let (go_tx, go_rx) = tokio::sync::oneshot::channel::<()>();
+        let reader = tokio::spawn(async move {
+            let _ = go_rx.await;
+            let mut all = Vec::new();
+            let _ = tokio::time::timeout(Duration::from_secs(20), s.read_to_end(&mut all)).await;
+            all
+        });
+        let mut issued: Vec<Issued> = Vec::new();
+        let send = |issued: &mut Vec<Issued>, len: usize| {
+            let i = issued.len();
+            let m = Issued {
+                path: format!("/m/{i}"),
+                body_len: len,
+                fill: 0x21 + (i % 90) as u8,
+                body_format: 0,
+                notify: 1,
+                query_format: 1,
+                ec: 0,
+            };
+            issued.push(m.clone());
+            m
+        };
+        // 1. whole small frames until one stalls in its flush; that one is abandoned
+        let mut stalled = false;
+        for _ in 0..4000 {
+            let m = send(&mut issued, c.fill_len as usize);
+            let body = vec![m.fill; m.body_len];
+            match tokio::time::timeout(abandon, client.notify_with_formats(&m.path, 1, Some(&body), 0)).await {
+                Ok(Ok(())) => {}
+                Ok(Err(_)) => break,
+                Err(_) => {
+                    stalled = true;
+                    break;
+                }
+            }
+        }
+        // 2. further small requests, each abandoned while the peer is still stalled
+        for len in &c.more {
+            let m = send(&mut issued, *len as usize);
+            let body = vec![m.fill; m.body_len];
+            let _ = tokio::time::timeout(abandon, client.notify_with_formats(&m.path, 1, Some(&body), 0)).await;
+        }
+        // 3. the peer drains; the caller carries on
+        let _ = go_tx.send(());
+        for _ in 0..c.followups {
+            let m = send(&mut issued, 64);
+            let body = vec![m.fill; m.body_len];
+            let _ = tokio::time::timeout(Duration::from_secs(5), client.notify_with_formats(&m.path, 1, Some(&body), 0)).await;
+        }
+        drop(client);
+        Ok::<_, Fail>((reader.await.unwrap_or_default(), issued, stalled))
+    })?;
+    let st = check_stream(&captured, &issued)?;
+    Ok(CaseInfo::new(stalled && !c.more.is_empty())
+        .class(if stalled { "socket-filled" } else { "socket-never-filled" })
+        .class(format!("abandoned-after-fill={}", c.more.len()))
+        .class(if st.prefix_len > 0 { "peer-holds-prefix" } else { "stream-ends-on-boundary" }))
+}
+
+fn small_ab_case() -> BoxedStrategy<SmallAbCase> {
+    (
+        prop::sample::select(vec![1000u16, 4000, 7000, 8000, 8100, 8192]),
+        0u8..60,
+        prop::collection::vec(prop_oneof![Just(64u16), Just(500), Just(3000), Just(8000), 1u16..9000], 0..4),
+        0u8..4,
+    )
+        .prop_map(|(fill_len, abandon_ms, more, followups)| SmallAbCase {
+            fill_len,
+            abandon_ms,
+            more,
+            followups,
+        })
+        .boxed()
 }
 
 fn ab_case() -> BoxedStrategy<AbCase> {
@@ -709,6 +837,7 @@ pub fn run(ctx: &Ctx, rep: &Report) {
     run_prop_threads(ctx, rep, "concurrent", ctx.tier.pick(120, 3_000), t, &|| conc_case(), &check_concurrent);
     run_prop_threads(ctx, rep, "write-timeout", ctx.tier.pick(96, 2_000), t, &|| wt_case(), &check_write_timeout);
     run_prop_threads(ctx, rep, "abandoned", ctx.tier.pick(64, 1_500), t, &|| ab_case(), &check_abandoned);
+    run_prop_threads(ctx, rep, "abandoned-small", ctx.tier.pick(48, 1_000), t, &|| small_ab_case(), &check_abandoned_small);
     run_prop_threads(ctx, rep, "server-stall", ctx.tier.pick(64, 1_500), t, &|| srv_case(), &check_server_stall);
     super::c05_ws::run(ctx, rep);
 }
@@ -718,6 +847,7 @@ pub fn replay(sub: &str, case: &serde_json::Value) -> Result<(), Fail> {
         "concurrent" => replay_case::<ConcCase>(case, &check_concurrent),
         "write-timeout" => replay_case::<WtCase>(case, &check_write_timeout),
         "abandoned" => replay_case::<AbCase>(case, &check_abandoned),
+        "abandoned-small" => replay_case::<SmallAbCase>(case, &check_abandoned_small),
         "server-stall" => replay_case::<SrvCase>(case, &check_server_stall),
         s if s.starts_with("ws-") => super::c05_ws::replay(s, case),
         _ => Err(Fail::new("replay-unknown-sub", sub.to_string())),
